@@ -1,6 +1,7 @@
 import RedisVerif.Driver.C07
 import RedisVerif.Driver.C08
 import RedisVerif.Driver.C03
+import RedisVerif.Driver.C02
 
 open RedisVerif.Driver
 
@@ -25,4 +26,5 @@ def main (args : List String) : IO UInt32 := do
   | ["C07"] => loop stdin stdout C07.step; return 0
   | ["C08"] => loopState stdin stdout C08.step (RedisVerif.Shard.init 0 false); return 0
   | ["C03"] => loopState stdin stdout C03.step C03.DState.init; return 0
+  | ["C02"] => loopState stdin stdout C02.step ([] : C02.DState); return 0
   | _ => IO.eprintln "usage: rvdriver <property-id> < ops"; return 2
